@@ -57,7 +57,14 @@ type PMethod struct {
 	Type  string `json:"type"`
 	Coll  bool   `json:"coll,omitempty"`
 	Fixed string `json:"fixed,omitempty"`
+	// result attributes (plain ones, of a single result) that the HTTP response carries in a
+	// header / a cookie instead of the body: the body type is then computed per response
+	Headers []string `json:"headers,omitempty"`
+	Cookies []string `json:"cookies,omitempty"`
 }
+
+func hdrName(a string) string { return "X-R-" + a }
+func ckName(a string) string  { return a + "_rck" }
 
 // Pool is a whole design fragment.
 type Pool struct {
@@ -209,8 +216,18 @@ func (p *Pool) design(name string) *dg.Design {
 			if m.Coll {
 				res = dg.A(dg.Type{Kind: "collection", Ref: m.Type})
 			}
-			s.Methods = append(s.Methods, &dg.Method{Name: m.Name, Result: &res, ResultView: m.Fixed,
-				HTTP: &dg.HTTPMap{Routes: []dg.Route{{Verb: "GET", Path: "/" + m.Name}}}})
+			h := &dg.HTTPMap{Routes: []dg.Route{{Verb: "GET", Path: "/" + m.Name}}}
+			if len(m.Headers)+len(m.Cookies) > 0 {
+				r := dg.Response{Status: 200}
+				for _, a := range m.Headers {
+					r.Headers = append(r.Headers, dg.MapEntry{Attr: a, Wire: hdrName(a)})
+				}
+				for _, a := range m.Cookies {
+					r.Cookies = append(r.Cookies, dg.MapEntry{Attr: a, Wire: ckName(a)})
+				}
+				h.Responses = append(h.Responses, r)
+			}
+			s.Methods = append(s.Methods, &dg.Method{Name: m.Name, Result: &res, ResultView: m.Fixed, HTTP: h})
 		}
 		d.Services = append(d.Services, s)
 	}
